@@ -10,7 +10,7 @@ import copy
 import math
 import random
 from collections import Counter
-from itertools import permutations, product
+from itertools import combinations, permutations, product
 
 from ..common import Result, sut, digest, SutRaised
 from ..taps import RandomTap, installed
@@ -52,7 +52,76 @@ def gen_cases(tier, seed):
     # two-topology fast / network generators whose first build callback re-seeds the random source (hostile callback)
     for i in range(8 if tier == "quick" else 60):
         cases.append({"mode": "stat", "seed": seed * 100169 + 2 * i, "R": 4000 if tier == "quick" else 20000, "_cost": 5, "hostile_fast": True})
+    # scale: one topology with thousands of stubs - vertices far apart in the sequence must meet as often as chance says
+    for i in range(4 if tier == "quick" else 24):
+        cases.append({"mode": "blocks", "seed": seed * 100183 + i, "_cost": 4})
     return cases
+
+
+def run_blocks(case, res, rng):
+    """one column with 2 100 .. 12 000 stubs (more than any in-memory threshold a shuffle might be cut at: 2 080 = where 2080! passes the
+    Mersenne Twister's period, 4 096, 8 192, 10 000), motifs of size 2 or 3.  Every pair of stubs that ends up in one motif is, marginally, a
+    uniformly random pair of distinct stubs: with the vertices cut into 6 consecutive blocks of (nearly) equal stub count, the 21 block-pair
+    counts must follow n_a n_b / C(n,2).  Pearson statistic on 20 degrees of freedom; a violation needs chi2 > 150 (p < 1e-21) - a
+    placement that is 'favoured by vertex order' at this scale produces thousands."""
+    import gcmpy
+    from gcmpy import GCMAlgorithmNames as G
+    size = rng.choice([2, 2, 3])
+    n_stubs = rng.choice([rng.randint(2100, 4000), rng.randint(4100, 8000), rng.randint(8200, 12000)])
+    n_stubs -= n_stubs % size
+    degs = []
+    left = n_stubs
+    while left > 0:
+        d = min(left, rng.choice([1, 1, 1, 2, 3]))
+        degs.append(d); left -= d
+    if rng.random() < 0.5:
+        degs.sort(reverse=rng.random() < 0.5)        # a sequence sorted by degree is the usual way one is written down
+    jds = [(d,) for d in degs]
+    groups = []
+
+    def build(vs):
+        groups.append(tuple(vs))
+        return gcmpy.clique_motif(vs)
+    flavour = rng.choice(["fast", "network"])
+    cls = gcmpy.GCMAlgorithmFast if flavour == "fast" else gcmpy.GCMAlgorithmNetwork
+    alg = sut(cls.__name__, cls, {G.MOTIF_SIZES: [size], G.BUILD_FUNCTIONS: [build], G.EDGE_NAMES: ["t"]})
+    tap = RandomTap(seed=case["seed"], keep_log=False)
+    with installed(tap, "fast", "custom", "network", "algbase"):
+        sut("random_clustered_graph", alg.random_clustered_graph, list(jds))
+    res.count("large_single_column_generations")
+    res.seen("large_column_stub_counts_in_thousands", n_stubs // 1000)
+    if sum(len(g) for g in groups) != n_stubs:
+        res.inconclusive("build callback saw %d stubs of %d" % (sum(len(g) for g in groups), n_stubs)); return
+    B = 6
+    cum, block = 0, {}
+    for v, d in enumerate(degs):
+        block[v] = min(B - 1, cum * B // n_stubs)
+        cum += d
+    nb = Counter()
+    for v, d in enumerate(degs):
+        nb[block[v]] += d
+    obs = Counter()
+    for g in groups:
+        for a, b in combinations(g, 2):
+            x, y = sorted((block[a], block[b]))
+            obs[(x, y)] += 1
+    npairs = sum(obs.values())
+    tot = n_stubs * (n_stubs - 1) / 2.0
+    chi2 = 0.0
+    cells = {}
+    for x in range(B):
+        for y in range(x, B):
+            e = npairs * ((nb[x] * nb[y]) if x != y else nb[x] * (nb[x] - 1) / 2.0) / tot
+            cells["%d-%d" % (x, y)] = [obs[(x, y)], round(e, 1)]
+            if e > 0:
+                chi2 += (obs[(x, y)] - e) ** 2 / e
+    res.count("block_pair_tables_tested")
+    res.nontrivial = True
+    res.digest = digest(["blocks", case["seed"]])
+    res.sample = {"mode": "blocks", "stubs": n_stubs, "size": size, "chi2": round(chi2, 1)}
+    if chi2 > 150:
+        res.violate("vertices-far-apart-in-the-sequence-do-not-meet-as-often-as-uniform-matching-says", stubs=n_stubs, motif_size=size, flavour=flavour,
+                    chi2_on_20_df=round(chi2, 1), block_pair_observed_expected=cells)
 
 
 def make_small(rng, limit, force_fast_two=False):
@@ -222,6 +291,9 @@ def run_case(case):
     rng = random.Random(case["seed"])
     if case["mode"] == "entropy":
         run_entropy(case, res, rng)
+        return res
+    if case["mode"] == "blocks":
+        run_blocks(case, res, rng)
         return res
     if case["mode"] == "exact":
         cfg, jds, n_c = make_small(rng, case["limit"])
